@@ -329,8 +329,14 @@ def inline_new_helpers(tree, ref):
     if ref is None:
         return tree
     new = {}
+    modvars = module_names(tree)
     for q, fn, cls in qualnames(tree):
         if q.startswith('<'):
+            continue
+        # (a helper that works on module-level state is not a moved block of
+        # its caller: it is left for the rules to see)
+        if any(isinstance(x, ast.Name) and x.id in modvars
+               for x in ast.walk(fn)):
             continue
         if q.split('#')[0] not in ref and q not in ref and _inlinable(
                 fn, cls is not None):
@@ -540,6 +546,25 @@ def propagate_new_temps(tree, ref):
     return tree
 
 
+def _between(cfg, d, n):
+    """Nodes on some path from the binding d to the use n that does not pass
+    d again -- the path may go through n (a loop), so a store AFTER the use
+    that comes round to it again is seen."""
+    import networkx as nx
+    g = getattr(cfg, '_g_all', None)
+    if g is None:
+        g = cfg._g_all = cfg.graph()
+    h = g.copy()
+    h.remove_edges_from(list(h.in_edges(d)))
+    fwd = nx.descendants(h, d)
+    bwd = nx.ancestors(h, n) | {n}
+    out = fwd & bwd
+    # n itself counts if it can be reached again after it ran
+    if n not in nx.descendants(h, n):
+        out = out - {n}
+    return out - {d}
+
+
 def _propagate(fn, cfg, t):
     from .cfg import reaching_defs
     from .defuse import _own_expr, _loads, _stored_names
@@ -575,7 +600,7 @@ def _propagate(fn, cfg, t):
                 return
             d = next(iter(rd))
             names, bases = _reads(d.ast.value)
-            between = cfg.reachable_between(d, n) - {n}
+            between = _between(cfg, d, n)
             has_call = any(isinstance(x, ast.Call)
                            for x in ast.walk(d.ast.value))
             for m in between:
